@@ -39,6 +39,9 @@ type Result struct {
 	Tape      []uint32       `json:"tape,omitempty"`
 	Tail      []string       `json:"tail,omitempty"`
 	Inconcl   string         `json:"inconclusive,omitempty"`
+	// CaseKey identifies the case a run explored when the journal shape is not a useful
+	// measure of distinctness (request/response scenarios); "" means use the shape.
+	CaseKey string `json:"case_key,omitempty"`
 }
 
 type Scenario struct {
